@@ -4,7 +4,8 @@ import random
 
 BASE = ['i:0', 'i:1', 'i:-1', 'i:7', 'i:1000000000000',
         'D:0.5', 'D:-2.5', 'D:1.005', 'D:0.000001',
-        'F:1/3', 'F:-2/7', 'F:1/2']
+        'F:1/3', 'F:-2/7', 'F:1/2',
+        'D:1.00000000000000000000000000001']      # 30 significant digits
 
 EXTRAS = [
     'D:123456789.123456789', 'D:0.000000001', 'D:-0.000000000000000001',
@@ -13,6 +14,8 @@ EXTRAS = [
     'D:0.0625', 'D:-0.1875', 'D:2.54', 'D:0.45359237', 'F:5/9', 'F:9/5',
     'D:273.15', 'D:-459.67', 'i:3600', 'i:1024', 'F:1/1024',
     'D:1609.344', 'F:-1/8', 'D:0.3',
+    'D:-123456789012345678901234567890.5',
+    'D:0.3333333333333333333333333333333',
 ]
 
 
